@@ -6,6 +6,7 @@ CONSTANTS Family = "labels"
           G = 4
           LTwo = FALSE
           EmitTwoRequests = TRUE
+          Relabel = "none"
 INVARIANTS C48_ResultSatisfiesProperty FunctionalFormAgrees
 PROPERTY Progress
 CHECK_DEADLOCK TRUE
